@@ -7,6 +7,7 @@ import (
 	"os"
 	"path/filepath"
 	"strings"
+	"sync"
 	"time"
 )
 
@@ -28,6 +29,10 @@ func init() {
 					map[string]any{"engine": "gen", "group": g.Group, "files": g.Files})
 			}
 		}
+		// a program that links ONE generated package and nothing else of this repository must find
+		// every import of its files resolved (each generated file has to pull in what it depends on
+		// itself; the big worker binary links everything and would hide a missing import)
+		linkStandalone(c)
 		// (1) obligations enumerated by Schema.tla from the schemas given to the generator
 		corpusJSON := filepath.Join(dir, "corpus.json")
 		known := filepath.Join(dir, "known.json")
@@ -104,4 +109,74 @@ func init() {
 			return rd == "Getter" || op == "Reset" || strings.HasSuffix(v.What, ":Getter")
 		})
 	}})
+}
+
+func linkStandalone(c *Ctx) {
+	pkgs := []string{"github.com/cosmos/cosmos-proto/testpb", "github.com/cosmos/cosmos-proto/internal/testprotos/test3"}
+	for _, g := range c.S.Groups {
+		if g.OK() {
+			pkgs = append(pkgs, g.GoPkgs...)
+		}
+	}
+	seen := map[string]bool{}
+	var mu sync.Mutex
+	var wg sync.WaitGroup
+	sem := make(chan struct{}, 8)
+	n := 0
+	for _, p := range pkgs {
+		if seen[p] {
+			continue
+		}
+		seen[p] = true
+		n++
+		wg.Add(1)
+		sem <- struct{}{}
+		go func(i int, p string) {
+			defer wg.Done()
+			defer func() { <-sem }()
+			dir := filepath.Join(c.S.Repo, "zzverif", "cmd", fmt.Sprintf("link%d", i))
+			os.MkdirAll(dir, 0o755)
+			src := fmt.Sprintf(`package main
+
+import (
+	"fmt"
+	"os"
+
+	_ %q
+	"google.golang.org/protobuf/reflect/protoreflect"
+	"google.golang.org/protobuf/reflect/protoregistry"
+)
+
+func main() {
+	bad := 0
+	protoregistry.GlobalFiles.RangeFiles(func(fd protoreflect.FileDescriptor) bool {
+		for i := 0; i < fd.Imports().Len(); i++ {
+			if imp := fd.Imports().Get(i); imp.IsPlaceholder() {
+				fmt.Printf("PLACEHOLDER %%s imports %%s\n", fd.Path(), imp.Path())
+				bad++
+			}
+		}
+		return true
+	})
+	if bad > 0 {
+		os.Exit(3)
+	}
+}
+`, p)
+			os.WriteFile(filepath.Join(dir, "main.go"), []byte(src), 0o644)
+			out, err := run(c.S.Repo, goEnv(), 10*time.Minute, "go", "run", "-tags", "verif", "./"+filepath.Join("zzverif", "cmd", fmt.Sprintf("link%d", i)))
+			mu.Lock()
+			defer mu.Unlock()
+			switch {
+			case strings.Contains(out, "PLACEHOLDER "):
+				c.R.Violate("coherence:descriptor:placeholder-standalone", fmt.Sprintf("a program linking only %s: %s", p, trunc(out, 400)), map[string]any{"engine": "linkcheck", "package": p})
+			case err != nil:
+				c.R.InternalErr("linkcheck %s: %v %s", p, err, trunc(out, 400))
+			}
+			os.RemoveAll(dir)
+		}(n, p)
+	}
+	wg.Wait()
+	c.R.Cov["packages_linked_standalone"] = n
+	c.R.AddCount("evaluations", int64(n))
 }
